@@ -64,6 +64,15 @@ def cases(tier, seed):
     for i in range(2 if not T else 6):
         cs.append({'gen': 'div', 'form': ['x/y', 'elementwise_divide', 's/y'][i % 3], 'N': [[9, 9, 1, 9, 9], [8, 10, 1, 1, 9, 9]][i % 2], 'Rx': [[1, 2, 2, 2, 2, 1], [1, 2, 2, 2, 2, 2, 1]][i % 2],
                    'Rz': [[1, 3, 3, 3, 3, 1], [1, 3, 3, 3, 3, 3, 1]][i % 2], 'eps': 1e-12, 'prec': None, 'start': False, 'scalar': 2.0, 'vseed': 6161 + i, 'sidx': 0, 'zrange': 3.0})
+    # small problems (fewer than 500 entries) with a WIDE divisor range [1, 101] and low-rank smooth-ish factors: quotients with a decaying spectrum at the default tolerance
+    for i in range(24 if not T else 200):
+        d = rng.choice([2, 3, 4])
+        while True:
+            N = [rng.randint(3, 10) for _ in range(d)]
+            if dn.prod(N) < 500:
+                break
+        cs.append({'gen': 'div', 'form': ['x/y', 'elementwise_divide', 's/y'][i % 3], 'N': N, 'Rx': [1] + [2] * (d - 1) + [1], 'Rz': [1] + [2] * (d - 1) + [1], 'eps': 1e-12, 'prec': 'c' if i % 4 == 3 else None,
+                   'start': False, 'scalar': 2.0, 'vseed': rng.randrange(2 ** 40), 'sidx': 0, 'zrange': 10.0, 'smooth': True})
     # degenerate but legitimate inputs: zero numerator (0/y, 0.0/y, zeros/y) and an all-zero starting tensor
     for i in range(12 if not T else 120):
         d = rng.choice([2, 3, 4])
@@ -134,6 +143,18 @@ def run_div(case, ctx, g):
     d = len(N)
     x = gens.make_tt(N, case['Rx'], dt, 'zero' if case.get('zero_num') else 'gauss', g)
     z = gens.make_tt(N, case['Rz'], dt, 'gauss', g)
+    if case.get('smooth'):
+        # smooth factors (low-degree polynomials of the index) instead of Gaussian noise: the quotient then has a fast-decaying spectrum
+        def smooth_cores(R_):
+            out = []
+            for k_, n_ in enumerate(N):
+                t_ = torch.linspace(0.0, 1.0, n_, dtype=dt)
+                c_ = torch.stack([torch.stack([(0.3 + 0.7 * torch.rand(1, generator=g, dtype=dt)) * t_ ** ((a_ + b_ + k_) % 3) + 0.2 * torch.rand(1, generator=g, dtype=dt)
+                                               for b_ in range(R_[k_ + 1])], dim=1) for a_ in range(R_[k_])], dim=0)
+                out.append(c_.reshape(R_[k_], n_, R_[k_ + 1]) if c_.dim() == 3 and c_.shape[1] == n_ else c_.permute(0, 2, 1))
+            return out
+        z = torchtt.TT([c.permute(0, 2, 1) if c.shape[1] != n_ else c for c, n_ in zip(smooth_cores(case['Rz']), N)])
+        x = torchtt.TT([c.permute(0, 2, 1) if c.shape[1] != n_ else c for c, n_ in zip(smooth_cores(case['Rx']), N)])
     zmax = float(dn.D(z).abs().max())
     zr = float(case.get('zrange', 1.0))      # |z| <= zrange: divisor entries in [1, 1 + zrange^2]
     z = ctx.call('TT*scalar', lambda a: a * (zr / max(zmax, 1e-300)), z)
